@@ -1,4 +1,4 @@
-import AsyncFix.Lemmas.SessionOutRunHist
+import AsyncFix.Lemmas.SessionOutExamples
 
 /-!
 # C05 — outbound messages are numbered consecutively and journaled under that number
@@ -57,20 +57,6 @@ def outInv_step_full : Prop :=
   ∀ (sr : Msg → Bool) (c : Conn) (env : Env) (m : Msg), OutInv c → OutInv (step sr c (.appSend env m)).1
 
 /-! ## 2. an accepted send -/
-
-/-- every way `send_msg` refuses because of the connection state (FIXConnectionError) -/
-def sendRefused (c : Conn) (m : Msg) : Bool :=
-  gateRefuses c m || (m.mtype == mTestRequest && c.testReqId.isNone)
-
-theorem afterGate_of_testreq {c : Conn} {m : Msg} (hg : gateRefuses c m = false)
-    (ht : (m.mtype == mTestRequest) = true) : afterGate c = c ∧ gateEff c = [] := by
-  have h6 : (c.state == st_NETWORK_CONN_ESTABLISHED) = false := by
-    cases h : c.state == st_NETWORK_CONN_ESTABLISHED with
-    | false => rfl
-    | true =>
-      have hm : m.mtype = mTestRequest := by simpa using ht
-      simp [gateRefuses, h, hm, mTestRequest, mLogon, mLogout] at hg
-  simp [afterGate, gateEff, h6]
 
 /-- **send_numbered**: a NEW message accepted for sending leaves in exactly one `write`, numbered with
 the session counter, carrying the session's CompIDs; the counter moves by one; the journal gains
@@ -238,35 +224,6 @@ theorem new_messages_journaled_partial (sr : Msg → Bool) (c : Conn) (evs : Lis
   (run_good (sr := sr) (U := True) (X := False) evs c hI hok (fun _ => hnb) (fun h => h.elim)).freshSlot
     trivial hmax
 
-theorem recoverOut_single (j : Journal) (hs : Rows.Sorted j.out) (n : Int) (f : Msg)
-    (h : Rows.find n j.out = some f) : j.recoverOut n n = [f] := by
-  unfold Journal.recoverOut Rows.range
-  have hm := Rows.find_mem h
-  have : ∀ (rs : Rows), Rows.Sorted rs → (n, f) ∈ rs →
-      (rs.filter fun p => decide (n ≤ p.1) && decide (p.1 ≤ n)) = [(n, f)] := by
-    intro rs
-    induction rs with
-    | nil => intro _ hm; cases hm
-    | cons p r ih =>
-      intro hs hm
-      have hs' := List.pairwise_cons.mp hs
-      rcases List.mem_cons.mp hm with e | hr
-      · subst e
-        have : (r.filter fun p => decide (n ≤ p.1) && decide (p.1 ≤ n)) = [] := by
-          rw [List.filter_eq_nil_iff]
-          intro q hq
-          have := hs'.1 q hq
-          simp only [Bool.and_eq_true, decide_eq_true_eq, not_and]
-          intro _; simp only at this; omega
-        simp [List.filter, this]
-      · have hlt := hs'.1 (n, f) hr
-        have : (decide (n ≤ p.1) && decide (p.1 ≤ n)) = false := by
-          simp only [Bool.and_eq_false_iff, decide_eq_false_iff_not]
-          simp only at hlt; left; omega
-        simp only [List.filter, this]
-        exact ih hs'.2 hr
-  rw [this j.out hs hm]; rfl
-
 /-- **new_messages_readback**: in a history in which no ResendRequest arrives, the exact frame written
 for each new message is what `recover_messages(OUTBOUND, n, n)` returns at the end. -/
 theorem new_messages_readback (sr : Msg → Bool) (c : Conn) (evs : List Event) (hI : OutInv c)
@@ -278,23 +235,14 @@ theorem new_messages_readback (sr : Msg → Bool) (c : Conn) (evs : List Event) 
   exact recoverOut_single _ g.inv.sorted n f (g.freshRow trivial f hf n hn)
 
 
-/-! ## non-vacuity -/
-def j0 : Journal := { outSeq := 41, inSeq := 6 }
-def c0 : Conn := Conn.create "INIT" "ACPT" j0 30 roleInitiator
-def c1 : Conn := (connected c0 .initiator).1
-def env0 : Env := { now := 1700000000000, stamp := "20240102-00:00:00.000" }
-def logon : Msg := Msg.mk' mLogon [(tEncryptMethod, "0"), (tHeartBtInt, "30")]
-def order (t : String) : Msg := Msg.mk' "D" [(11, "c1"), (58, t)]
+/-! ## non-vacuity (concrete states and the history `hist`: Lemmas/SessionOutExamples) -/
 
-theorem c0_inv : OutInv c0 :=
-  outInv_create _ _ _ _ _ (by decide) (by simp [j0, Rows.Sorted]) (by simp [j0])
+/-- `outInv_create` applies to a journal with stored counter 41 (`c0`), `outInv_step` to `c0` -/
+example : OutInv c0 := outInv_create _ _ _ _ _ (by decide) (by simp [j0, Rows.Sorted]) (by simp [j0])
 
-theorem c1_inv : OutInv c1 := outInv_step (fun _ => true) c0 (.connected .initiator) c0_inv trivial
+example : OutInv c1 := outInv_step (fun _ => true) c0 (.connected .initiator) c0_inv trivial
 
 example : c1.state = st_NETWORK_CONN_ESTABLISHED ∧ c1.sess.nextOut = 42 := by decide
-
-theorem logon_latin : frameLatin1 (buildFrame c1.sess env0.stamp logon c1.sess.nextOut) = true :=
-  frameLatin1_build _ _ _ _ (by decide) (by decide) (by decide) ⟨by decide, by decide⟩
 
 /-- `send_numbered` applies: the first Logon of an initiator whose stored counter is 41 leaves as 42 -/
 example : seqOf (buildFrame c1.sess env0.stamp logon 42) = some 42 ∧
@@ -302,39 +250,22 @@ example : seqOf (buildFrame c1.sess env0.stamp logon 42) = some 42 ∧
   have h := send_numbered env0 c1 logon c1_inv rfl (by decide) logon_latin
   exact ⟨h.2.2.1, h.2.2.2.2.2.1, h.2.2.2.2.2.2.2.1⟩
 
-/-- `refused_send_unchanged` applies: an application message as first message of an initiator -/
+/-- `refused_send_unchanged` applies: an application message as first message of an initiator;
+`refusal_complete` applies to the same send -/
 example : appSend env0 c1 (order "x") = (c1, [.raised .connection]) :=
   refused_send_unchanged env0 c1 (order "x") rfl (by decide)
 
-/-- `encoding_refusal` applies: a Logon with a non-single-byte field from NETWORK_CONN_ESTABLISHED; the
-state HAS moved to LOGON_INITIAL_SENT although nothing was sent -/
-def badLogon : Msg := Msg.mk' mLogon [(tEncryptMethod, "0"), (tHeartBtInt, "30"), (553, "€")]
+example : sendRefused c1 (order "x") = true :=
+  refusal_complete env0 c1 (order "x") c1_inv rfl
+    (by rw [refused_send_unchanged env0 c1 (order "x") rfl (by decide)]; simp)
 
+/-- `encoding_refusal` applies: a Logon with a non-single-byte field from NETWORK_CONN_ESTABLISHED; the
+state HAS moved to LOGON_INITIAL_SENT although nothing was sent and no number was used -/
 example : (appSend env0 c1 badLogon).1.state = st_LOGON_INITIAL_SENT ∧
     (appSend env0 c1 badLogon).1.sess = c1.sess ∧ (appSend env0 c1 badLogon).1.journal = c1.journal := by
   have h := encoding_refusal env0 c1 badLogon rfl (by decide) (by decide)
   rw [h.1]
   exact ⟨by decide, h.2.1, h.2.2.1⟩
-
-def peer (mtype : String) (seq : Int) (body : List (Nat × String)) : Msg :=
-  Msg.ofFields ([(8, "FIX.4.4"), (9, "0"), (35, mtype), (49, "ACPT"), (56, "INIT"), (34, toString seq),
-    (52, "20240102-00:00:01.000")] ++ body ++ [(10, "000")])
-
-def hist : List Event := [
-  .connected .initiator,
-  .appSend env0 logon,
-  .recv env0 (peer "A" 7 [(98, "0"), (108, "30")]),
-  .appSend env0 (order "one"),
-  .appSend env0 (order "two"),
-  .recv env0 (peer "2" 8 [(7, "42"), (16, "0")]),
-  .recv env0 (peer "1" 9 [(112, "T")]),
-  .tick env0,
-  .appSend env0 (order "€") ]
-
-theorem hist_ok : ∀ ev ∈ hist, ev.ok ∧ isReset ev = false := by
-  intro ev hev
-  simp only [hist, List.mem_cons, List.mem_nil_iff, or_false] at hev
-  rcases hev with rfl | rfl | rfl | rfl | rfl | rfl | rfl | rfl | rfl <;> exact ⟨by first | trivial | decide | rfl, rfl⟩
 
 /-- the history theorems apply to `hist` from `c0`, and `hist` is not trivial: four new messages leave
 (Logon, two orders, the Heartbeat answering the TestRequest), numbered 42 … 45 from the stored counter
@@ -345,6 +276,13 @@ example : OutInv (run (fun _ => true) c0 hist).1 :=
 example : (newWrites (run (fun _ => true) c0 hist).2).map seqOf = [some 42, some 43, some 44, some 45] := by
   decide +kernel
 
-example : ∀ ev ∈ hist, boundedResend ev = false := by decide
+/-- `new_messages_journaled_partial` applies to `hist` (its ResendRequest has EndSeqNo = 0), and
+`new_messages_readback` to the first five events of `hist` (no ResendRequest yet): all hypotheses are
+discharged for these concrete histories. -/
+example : True := by
+  have _h1 := new_messages_journaled_partial (fun _ => true) c0 hist c0_inv hist_ok hist_unbounded hist_max
+  have _h2 := new_messages_readback (fun _ => true) c0 (hist.take 5) c0_inv
+    (fun ev hev => hist_ok ev (List.mem_of_mem_take hev)) hist5_noResend
+  trivial
 
 end AsyncFix.Props.C05
